@@ -79,7 +79,7 @@ RECURSIVE DecRun(_, _, _)
 (* reads digits from i; returns <<value or -1 when too large, next index>> *)
 DecRun(b, i, acc) ==
     IF i <= Len(b) /\ IsDigit(b[i])
-    THEN DecRun(b, i + 1, IF acc < 0 \/ acc >= Lim THEN -1 ELSE acc * 10 + (b[i] - 48))
+    THEN DecRun(b, i + 1, IF acc < 0 \/ acc >= Lim \div 10 THEN -1 ELSE acc * 10 + (b[i] - 48))
     ELSE <<acc, i>>
 RECURSIVE HexRun(_, _, _)
 HexRun(b, i, acc) ==
